@@ -1246,6 +1246,16 @@ trait SecPkt: Clone + Serialize {
     fn lock(&mut self, pw: &Password, p: S2kParams) -> pgp::errors::Result<()>;
     fn unlock_inplace(&mut self, pw: &Password) -> pgp::errors::Result<()>;
     fn parse(body: &[u8]) -> pgp::errors::Result<Self>;
+    fn from_packet(p: pgp::packet::Packet) -> Option<Self>;
+    /// parse through the packet parser from a legacy (old format) framing: the object then carries an
+    /// old-format packet header
+    fn parse_old_format(body: &[u8]) -> Result<Self, String> {
+        let form = if body.len() < 256 { LenForm::Old1 } else { LenForm::Old2 };
+        let wire = frame(Self::TAG, body, &form).ok_or("cannot frame")?;
+        let mut it = pgp::packet::PacketParser::new(&wire[..]);
+        let p = it.next().ok_or("no packet")?.map_err(|e| format!("parse (old format): {e}"))?;
+        Self::from_packet(p).ok_or_else(|| "other packet type".to_string())
+    }
 }
 impl SecPkt for pgp::packet::SecretKey {
     const TAG: u8 = 5;
@@ -1258,6 +1268,12 @@ impl SecPkt for pgp::packet::SecretKey {
     fn parse(body: &[u8]) -> pgp::errors::Result<Self> {
         Self::try_from_reader(PacketHeader::new_fixed(Tag::SecretKey, body.len() as u32), body)
     }
+    fn from_packet(p: pgp::packet::Packet) -> Option<Self> {
+        match p {
+            pgp::packet::Packet::SecretKey(k) => Some(k),
+            _ => None,
+        }
+    }
 }
 impl SecPkt for pgp::packet::SecretSubkey {
     const TAG: u8 = 7;
@@ -1269,6 +1285,12 @@ impl SecPkt for pgp::packet::SecretSubkey {
     }
     fn parse(body: &[u8]) -> pgp::errors::Result<Self> {
         Self::try_from_reader(PacketHeader::new_fixed(Tag::SecretSubkey, body.len() as u32), body)
+    }
+    fn from_packet(p: pgp::packet::Packet) -> Option<Self> {
+        match p {
+            pgp::packet::Packet::SecretSubkey(k) => Some(k),
+            _ => None,
+        }
     }
 }
 
@@ -1416,6 +1438,49 @@ fn keyprot_packet<P: SecPkt>(ctx: &mut Ctx, pkt: &P, keyname: &str, seed: u64) {
                     }
                 }
                 None => {}
+            }
+        }
+
+        // ---- the same two directions with the key packet in legacy (old format) framing: the packet type
+        // octet that enters the AEAD key derivation and associated data is 0xC0|type whatever the framing
+        if matches!(prot, RefProtection::Aead { .. }) || seed % 4 == 0 {
+            if let Some(want) = RefSecret::lock(&rs.public, tag, prot.clone(), &pw, &material).map(|l| l.encode()) {
+                if lib_writes && !policy_refusal {
+                    cov(ctx, &format!("keyprot-{pname}"), c, a, 0, kind, h, "old-format", &lenc, "lib->ref");
+                    let r = lib(ctx, "C12/keyprot/lib-to-ref", &rp, || {
+                        let mut p2 = P::parse_old_format(&plain)?;
+                        p2.lock(&pwd, lib_prot(&prot)).map_err(|e| format!("lock: {e}"))?;
+                        p2.to_bytes().map_err(|e| format!("serialise: {e}"))
+                    });
+                    match r {
+                        Some(Ok(b)) if b == want => {}
+                        Some(Ok(b)) => ctx.violation(
+                            format!("C12/keyprot/{pname}/lib-to-ref/bytes-differ/old-format-header"),
+                            format!("{keyname} tag {tag} read from old-format framing and locked with {prot:?}: protected material differs from the RFC 9580 construction (lib {} ref {})", hexs(&b), hexs(&want)),
+                            rp.clone(),
+                        ),
+                        Some(Err(e)) => ctx.violation(format!("C12/keyprot/{pname}/lib-to-ref/lock-error/old-format-header"), format!("{keyname} tag {tag} {prot:?}: {e}"), rp.clone()),
+                        None => {}
+                    }
+                }
+                if !policy_refusal {
+                    cov(ctx, &format!("keyprot-{pname}"), c, a, 0, kind, h, "old-format", &lenc, "ref->lib");
+                    let r = lib(ctx, "C12/keyprot/ref-to-lib", &rp, || {
+                        let mut p = P::parse_old_format(&want)?;
+                        p.unlock_inplace(&pwd).map_err(|e| format!("unlock: {e}"))?;
+                        p.to_bytes().map_err(|e| format!("serialise: {e}"))
+                    });
+                    match r {
+                        Some(Ok(b)) if b == plain => {}
+                        Some(Ok(_)) => ctx.violation(format!("C12/keyprot/{pname}/ref-to-lib/material-differs/old-format-header"), format!("{keyname} tag {tag} {prot:?}"), rp.clone()),
+                        Some(Err(e)) => ctx.violation(
+                            format!("C12/keyprot/{pname}/ref-to-lib/rejected/old-format-header"),
+                            format!("library cannot unlock {keyname} tag {tag} locked per RFC with {prot:?} when the packet arrives in old-format framing: {e}"),
+                            rp.clone(),
+                        ),
+                        None => {}
+                    }
+                }
             }
         }
 
